@@ -391,6 +391,16 @@ func (BatchStatusMonitor) OnWrite(x *Ctx, w *Write) {
 					class = "all-updated-unready-within-workload-maxUnavailable"
 				}
 			}
+			// the partition style implements no wait (its last batch being Ready already means every pod is updated and
+			// ready; the property's mechanism names the blue-green and the canary-style finalisers): not judged there
+			if sc.Style == "partition" {
+				x.Count("C11 Completed reports of the partition style (no wait implemented, not judged)")
+				return
+			}
+			// a Finalize attempt that found the workload already restored by an earlier attempt is a retry
+			if x.Pre != nil && x.Pre.Workload != nil && !controlledOf(x.Pre.Workload) {
+				class += "/on-finalize-retry"
+			}
 			x.Violate("C11/completed/wait-resume-not-waited/"+sc.Kind+"-"+sc.Style+"/"+class, fmt.Sprintf("BatchRelease (policy WaitResume) reported Completed with %d/%d pods updated and %d ready", v.Updated, v.Replicas, v.UpdatedReady))
 		}
 	}
